@@ -235,6 +235,11 @@ func backwardSlice(v ssa.Value, throughCall func(c *ssa.CallCommon) bool, stop f
 			if b := bindingOf(x); b != nil {
 				rec(b)
 			}
+		case *ssa.Alloc:
+			// address of a local: whatever was stored into it
+			for _, st := range storesIntoCell(x) {
+				rec(st.Val)
+			}
 		case *ssa.Range:
 			rec(x.X)
 		case *ssa.Next:
